@@ -623,6 +623,9 @@ func (e *tcpEngine) serveFrame(j *tcpJob, length int) bool {
 
 // rejectInPlace frames the library-shaped bare-header rejection from the
 // job's TX headroom, allocation-free.
+// rejectExpired answers a query whose budget lapsed while it waited.
+func (j *tcpJob) rejectExpired() { j.rejectInPlace(acceptServerFailure, 0) }
+
 func (j *tcpJob) rejectInPlace(verdict acceptVerdict, _ int) {
 	if a, ok := j.engine.handler.(sourceAdmitter); ok && !a.AdmitsSource(j.RemoteAddr()) {
 		// Outside the access list: silent, like every other query from
@@ -636,8 +639,11 @@ func (j *tcpJob) rejectInPlace(verdict acceptVerdict, _ int) {
 	copy(out[0:2], j.rx[0:2])
 	opcode := (j.rx[2] >> 3) & 0xF
 	rcode := byte(dns.RcodeFormatError)
-	if verdict == acceptNotImplemented {
+	switch verdict {
+	case acceptNotImplemented:
 		rcode = byte(dns.RcodeNotImplemented)
+	case acceptServerFailure:
+		rcode = byte(dns.RcodeServerFailure)
 	}
 	out[2] = 0x80 | (opcode << 3) | (j.rx[2] & 0x01)
 	out[3] = rcode
